@@ -100,7 +100,7 @@ func c29EqStr(a, b []string) bool {
 
 // ---------- grid ----------
 
-func c29CheckGrid(r *vlib.Run, v int) {
+func c29CheckGrid(r *vlib.Run, v int, fullV int) {
 	c := c29Case{Part: "grid", V: v}
 	vkey := c29VKey(v)
 	bad := func(site, kind, key, detail string) {
@@ -233,11 +233,12 @@ func c29CheckGrid(r *vlib.Run, v int) {
 		}
 	}
 
-	// (4) manager.IsNeighbor(key) for every self index and every key
+	// (4) manager.IsNeighbor(key) for every self index (V <= fullV; boundary lattice of self indices above) and every key
+	selves := c29Selves(v, w, fullV)
 	// scenario D: the three sets have pairwise distinct keys
 	stranger := c29Key(9, 0)
 	gd := &GridMapper{Previous: c29Set(2, v+1), Current: cur, Next: c29Set(3, v)}
-	for a := 0; a < v; a++ {
+	for _, a := range selves {
 		vm := &ValidatorManager{Grid: gd, SelfIndex: a, SelfKey: cur[a].Ed25519}
 		var res []bool
 		p, msg, _ := vlib.Guard(func() {
@@ -293,7 +294,7 @@ func c29CheckGrid(r *vlib.Run, v int) {
 		}
 		go_ = &GridMapper{Previous: pv, Current: cur, Next: nx}
 	}
-	for a := 0; a < v; a++ {
+	for _, a := range selves {
 		for sc, gm := range []*GridMapper{gs, go_} {
 			vm := &ValidatorManager{Grid: gm, SelfIndex: a, SelfKey: cur[a].Ed25519}
 			res := make([]bool, v)
@@ -334,6 +335,31 @@ func c29CheckGrid(r *vlib.Run, v int) {
 	if r.WantSample() && v%97 == 10 {
 		r.Sample(map[string]interface{}{"part": "grid", "V": v, "width": cw, "neighbours_of_0": c29HeadI(nbr[0])})
 	}
+}
+
+// c29Selves: self indices for the ValidatorManager.IsNeighbor product. Up to fullV every index; above it the
+// positions where the row/column arithmetic changes: the corners and edges of the grid and of its (possibly
+// partial) last row, the middle, and their neighbours.
+func c29Selves(v, w, fullV int) []int {
+	if v <= fullV {
+		out := make([]int, v)
+		for i := range out {
+			out[i] = i
+		}
+		return out
+	}
+	lastRow := ((v - 1) / w) * w
+	cand := []int{0, 1, w - 1, w, w + 1, 2*w - 1, v / 2, v/2 + 1, lastRow - w, lastRow - 1, lastRow, lastRow + 1, v - w - 1, v - w, v - 2, v - 1}
+	seen := map[int]bool{}
+	var out []int
+	for _, c := range cand {
+		if c >= 0 && c < v && !seen[c] {
+			seen[c] = true
+			out = append(out, c)
+		}
+	}
+	sort.Ints(out)
+	return out
 }
 
 func c29HeadI(s []int) []int {
@@ -417,7 +443,7 @@ func TestVerif_C29(t *testing.T) {
 	var rc c29Case
 	if r.IsReplay(&rc) {
 		if rc.Part == "grid" {
-			c29CheckGrid(r, rc.V)
+			c29CheckGrid(r, rc.V, vlib.Pick(r, 300, 450))
 		} else {
 			var a, b types.Ed25519Public
 			copy(a[:], vlib.Unhex(rc.A))
@@ -429,6 +455,7 @@ func TestVerif_C29(t *testing.T) {
 
 	idx := uint64(0)
 	maxV := vlib.Pick(r, 300, 1100)
+	fullV := vlib.Pick(r, 300, 450) // ValidatorManager.IsNeighbor: every self index up to here (FindIndex makes it O(V^3) per V)
 	// large V first so the shards finish together
 	for v := maxV; v >= 0; v-- {
 		idx++
@@ -436,7 +463,7 @@ func TestVerif_C29(t *testing.T) {
 			continue
 		}
 		r.Space(1)
-		c29CheckGrid(r, v)
+		c29CheckGrid(r, v, fullV)
 	}
 	keys := c29Lattice()
 	r.Extra("initiator_lattice_keys", len(keys))
